@@ -39,6 +39,7 @@ def run(ctx):
     # Display + new / FromStr / TryFrom: the text Display writes is the stored expression (C19.route); building it again
     # gives the same glob only if the parser stores exactly the text it was given
     parsecat.report(F, R, "C19.text", ctx.tier, ("expression",), 12000)
+    parsecat.report_partition(F, R, "C08.text")   # what Display writes after a partition, from real parser annotations
 
 
 def canon(v):
